@@ -257,6 +257,18 @@ func c02Reuse(c *Ctx, cfg wcfg, i int64, g *prng.Rng, prop string) {
 			failed = "Apply: " + err.Error()
 			return
 		}
+		if i%4 == 3 {
+			// a past with a failure: the sink of an earlier frame failed, the caller closed the Writer twice
+			// (an explicit Close and a deferred one) before reusing it
+			bad := &gen.Sink{FailFrom: 1 + int(i/4)%3, Budget: 4000}
+			w.Reset(bad)
+			_, _ = w.Write(first[:len(first)/2])
+			_ = w.Flush()
+			_ = w.Close()
+			_ = w.Close()
+			w.Reset(sinks[0])
+			c.Count("reused_writers_with_a_failed_frame_in_their_past", 1)
+		}
 		for k, in := range inputs {
 			if k > 0 {
 				w.Reset(sinks[k])
